@@ -823,4 +823,131 @@ theorem foldSep_distinct : ∀ (g d : Comp), (gkeys (d ++ g)).Nodup → foldSep 
     rw [setTo_new k v d hk, this]
     simp
 
+/-! ## the computed composition has every element once; `compVal` is the dict lookup -/
+
+theorem gkeys_addTo (k : Str) (v : Num) :
+    ∀ d : Comp, gkeys (addTo d k v) = if k ∈ gkeys d then gkeys d else gkeys d ++ [k] := by
+  intro d
+  induction d with
+  | nil => simp [addTo, gkeys]
+  | cons kv r ih =>
+    obtain ⟨k', v'⟩ := kv
+    simp only [addTo]
+    split
+    · rename_i hk
+      have hk' : k' = k := by simpa using hk
+      subst hk'
+      simp [gkeys]
+    · rename_i hk
+      have hk' : ¬ k = k' := by
+        intro e; apply hk; simp [e]
+      simp only [gkeys, List.map_cons, List.mem_cons, hk', false_or] at ih ⊢
+      rw [ih]
+      split <;> simp [*]
+
+theorem nodup_addTo (k : Str) (v : Num) (d : Comp) (h : (gkeys d).Nodup) : (gkeys (addTo d k v)).Nodup := by
+  rw [gkeys_addTo]
+  split
+  · exact h
+  · rename_i hk
+    rw [List.nodup_append]
+    refine ⟨h, by simp, ?_⟩
+    intro a ha b hb
+    simp only [List.mem_singleton] at hb
+    subst hb
+    intro e
+    exact hk (e ▸ ha)
+
+theorem nodup_addScaled (v : Num) : ∀ (c acc : Comp), (gkeys acc).Nodup → (gkeys (addScaled acc c v)).Nodup := by
+  intro c
+  induction c with
+  | nil => intro acc h; exact h
+  | cons kv r ih => intro acc h; exact ih _ (nodup_addTo _ _ _ h)
+
+theorem nodup_compFold (mono : List Entry) : ∀ (g acc : Comp), (gkeys acc).Nodup →
+    (gkeys (compFold mono g acc)).Nodup := by
+  intro g
+  induction g with
+  | nil => intro acc h; exact h
+  | cons kv r ih => intro acc h; exact ih _ (nodup_addScaled _ _ _ h)
+
+theorem compVal_zero_of_not_mem (el : Str) : ∀ c : Comp, el ∉ gkeys c → compVal c el = 0 := by
+  intro c
+  induction c with
+  | nil => intro _; rfl
+  | cons kv r ih =>
+    intro h
+    simp only [gkeys, List.map_cons, List.mem_cons, not_or] at h
+    have h1 : ¬ kv.1 = el := fun e => h.1 e.symm
+    rw [compVal_cons, ih h.2]
+    simp [h1]
+
+/-- the count stored under `el`, 0 when absent (Python `d.get(el, 0)`) -/
+def countAt (c : Comp) (el : Str) : Rat :=
+  match c.get? el with
+  | some v => v.val
+  | none => 0
+
+/-- in a dict with every key once `compVal` is the value stored under the key (0 when absent) -/
+theorem compVal_eq_get (el : Str) : ∀ c : Comp, (gkeys c).Nodup → compVal c el = countAt c el := by
+  intro c
+  unfold countAt
+  induction c with
+  | nil => intro _; rfl
+  | cons kv r ih =>
+    intro h
+    simp only [gkeys, List.map_cons, List.nodup_cons] at h
+    rw [compVal_cons]
+    by_cases hk : kv.1 = el
+    · subst hk
+      rw [compVal_zero_of_not_mem _ r h.1]
+      simp [Comp.get?]
+    · have : (kv.1 == el) = false := by simpa using hk
+      rw [ih h.2]
+      simp [Comp.get?, this, hk]
+
+/-! ## canonical names -/
+
+theorem unambig_keys (names : List Str) : ∀ g : Comp, Unambig names g = true → ∀ kv ∈ g, kv.1 ∈ names := by
+  intro g
+  induction g with
+  | nil => intro _ kv h; cases h
+  | cons kv r ih =>
+    intro hu kv' hkv'
+    obtain ⟨nm, v⟩ := kv
+    simp only [Unambig, Bool.and_eq_true, List.contains_iff_mem] at hu
+    rcases List.mem_cons.1 hkv' with rfl | h
+    · exact hu.1.1.1
+    · exact ih hu.2 kv' h
+
+theorem monoMass_congr (mono : List Entry) (isMono : Bool) (k k' : Str) (h : monoEntry mono k' = monoEntry mono k) :
+    monoMass mono isMono k' = monoMass mono isMono k := by
+  simp only [monoMass, h]
+
+theorem monoComp_congr (mono : List Entry) (k k' : Str) (h : monoEntry mono k' = monoEntry mono k) :
+    monoComp mono k' = monoComp mono k := by
+  simp only [monoComp, h]
+
+theorem massSum_mapKeys (mono : List Entry) (isMono : Bool) (f : Str → Str) (g : Comp)
+    (h : ∀ kv ∈ g, monoEntry mono (f kv.1) = monoEntry mono kv.1) :
+    massSum mono isMono (mapKeys f g) = massSum mono isMono g := by
+  induction g with
+  | nil => rfl
+  | cons kv r ih =>
+    have h1 := monoMass_congr mono isMono _ _ (h kv (by simp))
+    have ih' := ih (fun kv hkv => h kv (List.mem_cons_of_mem _ hkv))
+    simp only [massSum, mapKeys, List.map_cons, List.sum_cons, h1] at ih' ⊢
+    rw [ih']
+
+theorem compSum_mapKeys (mono : List Entry) (f : Str → Str) (g : Comp) (el : Str)
+    (h : ∀ kv ∈ g, monoEntry mono (f kv.1) = monoEntry mono kv.1) :
+    compSum mono (mapKeys f g) el = compSum mono g el := by
+  induction g with
+  | nil => rfl
+  | cons kv r ih =>
+    have h1 := monoComp_congr mono _ _ (h kv (by simp))
+    have ih' := ih (fun kv hkv => h kv (List.mem_cons_of_mem _ hkv))
+    simp only [compSum, mapKeys, List.map_cons, List.sum_cons, h1] at ih' ⊢
+    rw [ih']
+
 end Formula
